@@ -18,7 +18,7 @@ TEMPLATES = {
     'void_opt': ("start: 'a' () ['b'] 'c' $ ;\n", ['a', 'b', 'c']),
     'upper_rule_token': ("start: 'a' Tok 'c' $ ;\nTok: 'b' ;\n", ['a', 'b', 'c']),   # tokens inside an upper-case rule still skip whitespace themselves
 }
-COMMENT_RUNS = ['', '(*q*)', '#q\n', '(**)', '# \n(*x*)']
+COMMENT_RUNS = ['', '(*q*)', '#q\n', '(*x*)#q\n', '# \n(*x*)', '(**) (*y*)']
 
 
 def make_layout(spec):
@@ -28,6 +28,7 @@ def make_layout(spec):
     gtext, lexemes = TEMPLATES[spec['template']]
     runs = spec['runs']               # number of symbolic characters in each of the len(lexemes)+1 runs
     use_comments = spec.get('comments', False)
+    sel_runs = spec.get('sel_runs', list(range(len(runs))))     # which runs get a comment selector
     eng = Engine(gtext)
     base = eng.parse(' '.join(lexemes))
     assert base[0] == 'ok', (gtext, lexemes, base)
@@ -42,8 +43,8 @@ def make_layout(spec):
             run = ''
             for ch in chars:
                 run = run + ch
-            if use_comments:
-                sel = args[len(args) - len(runs) + k]
+            if use_comments and k in sel_runs:
+                sel = args[len(args) - len(sel_runs) + sel_runs.index(k)]
                 c = COMMENT_RUNS[0]
                 for j in range(len(COMMENT_RUNS)):
                     if sel == j:
@@ -79,7 +80,7 @@ def make_layout(spec):
         return f'grammar:\n{gtext}text={text!r}\nparse={eng.parse(text)!r}\nsingle-space layout={base!r}'
 
     body.explain = explain
-    nsel = len(runs) if use_comments else 0
+    nsel = len(sel_runs) if use_comments else 0
     body.warm = [tuple([32] * sum(runs) + [0] * nsel), tuple([10] * sum(runs) + [1] * nsel), tuple([9] * sum(runs) + [2] * nsel)]
     return body
 
@@ -255,7 +256,7 @@ def plan(tier, seed):
     obs = []
     # A
     layouts = {
-        'tokens_rule_eof': [[0, 1, 1, 0], [1, 1, 1, 1], [0, 2, 1, 0]] if tier == 'quick' else [[0, 1, 1, 0], [1, 1, 1, 1], [0, 2, 1, 0], [2, 1, 1, 2], [0, 1, 2, 1], [1, 2, 2, 0]],
+        'tokens_rule_eof': [[0, 1, 1, 0], [1, 1, 1, 0], [0, 2, 1, 0]] if tier == 'quick' else [[0, 1, 1, 0], [1, 1, 1, 1], [0, 2, 1, 0], [2, 1, 1, 2], [0, 1, 2, 1], [1, 2, 2, 0]],
         'closure_join': [[0, 1, 1, 0], [1, 0, 0, 1]] if tier == 'quick' else [[0, 1, 1, 0], [1, 0, 0, 1], [1, 1, 1, 1], [0, 2, 0, 2]],
         'named_const': [[1, 1, 1]] if tier == 'quick' else [[1, 1, 1], [0, 2, 0], [2, 1, 2]],
         'void_opt': [[0, 1, 1, 1]] if tier == 'quick' else [[0, 1, 1, 1], [1, 1, 1, 0], [0, 2, 1, 0]],
@@ -265,11 +266,15 @@ def plan(tier, seed):
         for runs in ls:
             nm = ''.join(map(str, runs))
             obs.append(Ob(name=f'A_{tpl}_{nm}', factory='vt.props.c09:make_layout', spec={'template': tpl, 'runs': runs, 'program': tpl},
-                          params=[(f'w{i}', 0, UNI) for i in range(sum(runs))], budget=600 if sum(runs) <= 3 else 1500, group='A', require_tags=('ok',)))
-    for runs in ([[0, 1, 1, 0], [1, 1, 0, 1]] if tier == 'quick' else [[0, 1, 1, 0], [1, 1, 0, 1], [1, 1, 1, 1]]):
-        nm = ''.join(map(str, runs))
-        obs.append(Ob(name=f'A_comments_{nm}', factory='vt.props.c09:make_layout', spec={'template': 'comments', 'runs': runs, 'comments': True, 'program': 'comments'},
-                      params=[(f'w{i}', 0, UNI) for i in range(sum(runs))] + [(f's{i}', 0, len(COMMENT_RUNS)) for i in range(len(runs))], budget=1500, group='A', require_tags=('ok',)))
+                          params=[(f'w{i}', 0, UNI) for i in range(sum(runs))], budget=(300 if tier == 'quick' else 1500), group='A', require_tags=('ok',)))
+    # comment selectors: a run between two tokens always keeps at least one whitespace character (zero-width runs only at the ends)
+    cl = [([0, 1, 1, 0], [1, 2])] if tier == 'quick' else [([0, 1, 1, 0], [1, 2]), ([1, 1, 1, 0], [0, 1]), ([0, 1, 1, 1], [2, 3])]
+    for runs, sel_runs in cl:
+        for first in range(len(COMMENT_RUNS)):     # one obligation per comment shape of the first selected run
+            nm = ''.join(map(str, runs)) + '_s' + ''.join(map(str, sel_runs)) + f'_c{first}'
+            obs.append(Ob(name=f'A_comments_{nm}', factory='vt.props.c09:make_layout', spec={'template': 'comments', 'runs': runs, 'comments': True, 'sel_runs': sel_runs, 'program': 'comments'},
+                          params=[(f'w{i}', 0, UNI) for i in range(sum(runs))] + [('s0', first, first + 1), ('s1', 0, len(COMMENT_RUNS))],
+                          budget=300 if tier == 'quick' else 1500, group='A', require_tags=('ok',)))
     for kind in ('pattern', 'upper_rule', 'lower_rule'):
         for n in (1, 2):
             obs.append(Ob(name=f'A_noskip_{kind}_{n}', factory='vt.props.c09:make_noskip', spec={'kind': kind, 'n': n, 'program': kind}, params=[(f'w{i}', 0, UNI) for i in range(n)],
@@ -278,7 +283,9 @@ def plan(tier, seed):
     maxn = 3 if tier == 'quick' else 4
     for gn, rules in B_GRAMMARS.items():
         for ng, nc, ic in B_SETTINGS:
-            if tier == 'quick' and gn == 'guard_choice' and nc:
+            if tier == 'quick' and gn == 'guard_choice' and (nc or ic):
+                continue
+            if tier == 'quick' and gn == 'guard' and ic and ng is not None:
                 continue
             if gn == 'case' and (nc or ng is True):
                 continue
